@@ -34,7 +34,7 @@ def ty_range(t):
 
 # ============================================================================ state
 class St:
-    __slots__ = ("env", "cons", "lo", "hi", "dead", "eng", "mod")
+    __slots__ = ("env", "cons", "lo", "hi", "dead", "eng", "mod", "divq", "trace")
 
     def __init__(self, eng):
         self.eng = eng
@@ -43,6 +43,8 @@ class St:
         self.lo = {}
         self.hi = {}
         self.mod = {}     # congruences of loop counters: sym -> (g, r), the symbol's value is r modulo g (g >= 2)
+        self.divq = {}    # (dividend Lin, constant divisor) -> quotient symbol, shared by `a / k` and `a % k`
+        self.trace = ()   # branch decisions taken outside loops (only when the root body has a probe: trace partitioning)
         self.dead = False
 
     def copy(self):
@@ -52,6 +54,8 @@ class St:
         s.lo = dict(self.lo)
         s.hi = dict(self.hi)
         s.mod = dict(self.mod)
+        s.divq = dict(self.divq)
+        s.trace = self.trace
         s.dead = self.dead
         return s
 
@@ -217,6 +221,14 @@ def c_not(c):
     return ("not", c)
 
 
+# Semantic probes: value relations checked at one site of one body, with trace partitioning switched on for that body.
+PROBES = {
+    "ber::objectid::<impl std::convert::TryFrom<&ber::objectid::SnmpOid<'_>> for std::string::String>::try_from": {
+        "name": "oid-first-octet", "collect": "Argument::<'_>::new_display", "assume_first_le": 119,
+    },
+}
+
+
 class Obligation:
     __slots__ = ("body", "key", "kind", "line", "ok", "detail", "cls", "n", "inst")
 
@@ -233,6 +245,10 @@ class Obligation:
 
 # ============================================================================ engine
 class Engine:
+    probe = None
+    probe_loop_blocks = frozenset()
+    probe_next_block = None
+
     def __init__(self, facts, contracts=None, invariants=None, verbose=False):
         self.facts = facts
         self.syms = []  # (name, lo, hi)
@@ -421,6 +437,11 @@ class Engine:
             return self.fresh_for(st, t, "elem")
         if self.is_agg(t):
             return ("agg", path)
+        if t.get("k") in ("param", "alias", "opaque") and path not in st.env:
+            # a local of generic type inside an inlined helper (`fill: F`) that holds an aggregate (the closure handed in)
+            n_ = len(path)
+            if any(len(p_) > n_ and p_[:n_] == path for p_ in st.env):
+                return ("agg", path)
         return self.read(st, path, t, fr.body.local_name(pl["l"]), self.container_of(fr, pl))
 
     def write_place(self, st, fr, pl, val):
@@ -787,17 +808,7 @@ class Engine:
                     return Lin.const(la.c // k) if (op == "Shr" or la.c >= 0) else None
                 if op == "Div" and not st.entails(-la):
                     return None
-                q = self.new_sym("q")
-                ql = Lin.sym(q)
-                # k*q <= a <= k*q + k - 1
-                st.add(ql.scale(k) - la)
-                st.add(la - ql.scale(k) - (k - 1))
-                lo_a, up_a = st.lower(la), st.upper(la)
-                if lo_a is not None and lo_a != -INF:
-                    st.lo[q] = lo_a // k
-                if up_a is not None and up_a != INF:
-                    st.hi[q] = up_a // k
-                return ql
+                return self.quotient(st, la, k)
             # variable shift / divisor: result between 0 and a for non-negative a
             if st.entails(-la):
                 f = self.new_sym("shr", 0, INF)
@@ -805,6 +816,9 @@ class Engine:
                 return Lin.sym(f)
             return None
         if op == "Rem":
+            if not lb.t and lb.c > 0 and st.entails(-la):
+                # a % k = a - k * (a / k), with the quotient symbol shared with an `a / k` of the same dividend
+                return la - self.quotient(st, la, lb.c).scale(lb.c)
             if st.entails(-la) and st.entails(Lin.const(1) - lb):
                 f = self.new_sym("rem", 0, INF)
                 fl = Lin.sym(f)
@@ -851,6 +865,24 @@ class Engine:
                 return Lin.sym(f)
             return None
         return None
+
+    def quotient(self, st, la, k):
+        """Lin of floor(la / k) for la >= 0 and a constant k >= 2: k*q <= la <= k*q + k - 1."""
+        key = (la, k)
+        q = st.divq.get(key)
+        if q is not None:
+            return Lin.sym(q)
+        q = self.new_sym("q")
+        ql = Lin.sym(q)
+        st.add(ql.scale(k) - la)
+        st.add(la - ql.scale(k) - (k - 1))
+        lo_a, up_a = st.lower(la), st.upper(la)
+        if lo_a is not None and lo_a != -INF:
+            st.lo[q] = lo_a // k
+        if up_a is not None and up_a != INF:
+            st.hi[q] = up_a // k
+        st.divq[key] = q
+        return ql
 
     # ------------------------------------------------------------------ conditions
     def assume(self, st, c, truth=True):
@@ -1008,6 +1040,8 @@ class Engine:
     # ------------------------------------------------------------------ partitions / join
     def part_key(self, st):
         ks = []
+        if st.trace:
+            ks.append((("#trace",), st.trace))
         for p, v in st.env.items():
             if p[-1] == "#d" and v[0] == "int" and not v[1].t:
                 ks.append((p, v[1].c))
@@ -1037,6 +1071,8 @@ class Engine:
             return states[0].copy()
         out = St(self)
         first = states[0]
+        if all(x.trace == first.trace for x in states):
+            out.trace = first.trace
         # symbols being (re)defined at this join
         phi = {}
         per_state = []  # list of dict phi_sym -> Lin per state
@@ -1502,6 +1538,21 @@ class Interp:
             succ[t["target"]] = states
             return succ, None
         if k == "switch":
+            tracing = self.probe is not None and fr.depth == 0 and bidx not in self.probe_loop_blocks
+            if tracing:
+                # trace partitioning for a probed body: states that took different branches outside loops are not joined
+                res = self._terminator_switch(fr, bidx, blk, states, t, succ)
+                for tg, sts in res[0].items():
+                    for s2 in sts:
+                        if len(s2.trace) < 8:
+                            s2.trace = s2.trace + ((bidx, tg),)
+                return res
+            return self._terminator_switch(fr, bidx, blk, states, t, succ)
+        return self._terminator_rest(fr, bidx, blk, states, t, k, succ)
+
+    def _terminator_switch(self, fr, bidx, blk, states, t, succ):
+        body = fr.body
+        if True:
             for st in states:
                 v = self.operand(st, fr, t["discr"])
                 dty = self.ty(t["dty"])
@@ -1552,6 +1603,9 @@ class Interp:
                 if not s2.dead:
                     succ.setdefault(t["otherwise"], []).append(s2)
             return succ, None
+
+    def _terminator_rest(self, fr, bidx, blk, states, t, k, succ):
+        body = fr.body
         if k == "assert":
             out = []
             for st in states:
@@ -1633,11 +1687,15 @@ class Interp:
             if reads:
                 for a in args:
                     self.extent_escape(st, fr, a, "passed to %s" % (path or "?").split("::")[-1])
+        if self.probe is not None and fr.depth == 0:
+            self.probe_collect(fr, bidx, st, t, path, args)
         # 1. models of external / well-known functions
         m = self.models.lookup(path, c)
         if m is not None:
             res = m(ctx)
             if res is not None:
+                if self.probe is not None and fr.depth == 0 and bidx == self.probe_next_block:
+                    self.probe_bind_first(ctx, res)
                 return res
         # 2. local callee
         cands = self.facts.resolve_call(t)
@@ -1662,6 +1720,67 @@ class Interp:
         elif "indirect" in c:
             self.unmodelled["<indirect call>"] = self.unmodelled.get("<indirect call>", 0) + 1
         return self.opaque(ctx, None, local=False)
+
+    # ------------------------------------------------------------------ semantic probes (see PROBES)
+    def probe_bind_first(self, ctx, res):
+        """The element yielded by the first Iterator::next of the probed body gets the named symbol `first`."""
+        vi, dv = self.models.variant_index(ctx.dty, "Some")
+        pty = self.models.payload_ty(self, ctx.dty, "Some")
+        for st2 in res:
+            dp = ctx.dest_path(st2)
+            if dp is None:
+                continue
+            d = st2.env.get(dp + ("#d",))
+            if d is None or d[0] != "int" or d[1].t or d[1].c != (dv if dv is not None else 1):
+                continue
+            pp = dp + (("dc", vi if vi is not None else 1), ("f", 0))
+            sym = self.named_sym(("probe", "first"), 0, 255)
+            v = st2.env.get(pp)
+            if v is not None and v[0] == "ptr":
+                st2.env[v[1]] = V_int(Lin.sym(sym))
+            elif pty.get("k") == "int":
+                st2.env[pp] = V_int(Lin.sym(sym))
+            elif pty.get("k") == "ref" and self.ty(pty["to"]).get("k") == "int":
+                o = self.new_obj()
+                st2.env[pp] = ("ptr", (o,))
+                st2.env[(o,)] = V_int(Lin.sym(sym))
+
+    def probe_collect(self, fr, bidx, st, t, path, args):
+        """Record the values formatted by the first write!() of the probed body and check the probe's relation."""
+        if not (path or "").endswith(self.probe["collect"]) or bidx in self.probe_loop_blocks or not args:
+            return
+        v = args[0]
+        val = None
+        if v[0] == "ptr":
+            val = st.env.get(v[1])
+        elif v[0] == "int":
+            val = v
+        nkey = (("#probe", "n"),)
+        n = st.env.get(nkey)
+        n = n[1].c if n is not None and n[0] == "int" and not n[1].t else 0
+        if n >= 2:
+            return
+        st.env[nkey] = V_int(Lin.const(n + 1))
+        if val is None or val[0] != "int":
+            st.env[(("#probe", n),)] = TOP
+        else:
+            st.env[(("#probe", n),)] = val
+        if n + 1 < 2:
+            return
+        x, y = st.env.get((("#probe", 0),)), st.env.get((("#probe", 1),))
+        first = self.named.get(("probe", "first"))
+        key = "probe:%s" % self.probe["name"]
+        if first is None or x is None or y is None or x[0] != "int" or y[0] != "int":
+            self.oblige(st, fr, key + "|values-tracked", "probe", t["line"], ("const", False), "probe",
+                        "the two formatted values or the first octet could not be tracked")
+            return
+        f = Lin.sym(first)
+        st2 = st.copy()
+        st2.add(f - self.probe["assume_first_le"])
+        self.oblige(st2, fr, key + "|40*arc1 + arc2 == first octet", "probe", t["line"], ("eq", x[1].scale(40) + y[1] - f), "probe",
+                    "for a first octet below 120 the printed arcs must satisfy 40*x + y == octet")
+        self.oblige(st2, fr, key + "|arc2 <= 39", "probe", t["line"], ("le", y[1] - 39), "probe",
+                    "for a first octet below 120 the second printed arc is at most 39")
 
     def inlinable(self, callee, fr):
         if fr.depth >= MAX_INLINE_DEPTH:
@@ -1835,6 +1954,16 @@ class NumEngine(Interp, Engine):
             for l in fr.old.values():
                 if l is not None:
                     self.pinned.update(l.syms())
+        self.probe = PROBES.get(body.path)
+        self.probe_loop_blocks = set()
+        self.probe_next_block = None
+        if self.probe is not None:
+            for h_, bl_ in cfgm.natural_loops(body).items():
+                self.probe_loop_blocks |= set(bl_)
+            order_ = cfgm.rpo(body)
+            nx_ = [b_.idx for b_ in body.calls() if (callee_path(b_.term) or "").endswith("as std::iter::Iterator>::next") and b_.idx not in self.probe_loop_blocks]
+            if nx_:
+                self.probe_next_block = min(nx_, key=lambda x_: order_.index(x_) if x_ in order_ else 10 ** 9)
         self.extent = None
         if body.impl_trait == "ber::BerDecoder" and body.name == "decode" and body.arg_count >= 2:
             # extent rule: reads of the input slice must stay below the declared length h.length
